@@ -533,7 +533,7 @@ pub fn oracle_c08(scn: &Scenario, t: &Trace, st: &mut ExploreStats) -> Vec<Viola
         // a client that is alive always has a read outstanding (idling or waiting for a reply), or
         // gets back to one after its re-idle delay: a peer close, a reset, a read error or garbage
         // cannot stay unnoticed until the end of the drain. (A write error is only met on a write.)
-        if matches!(fault, Ev::Close(_) | Ev::CloseRst(_) | Ev::ReadErr | Ev::Garbage | Ev::GarbageOpen) && matches!(t.connect_result, Some(Ok(_))) {
+        if matches!(fault, Ev::Close(_) | Ev::CloseRst(_) | Ev::ReadErr | Ev::ReadErrAfter(_) | Ev::Garbage | Ev::GarbageOpen) && matches!(t.connect_result, Some(Ok(_))) {
             out.push(Violation::new(
                 "C08/connection-end-not-noticed",
                 format!("{} went unnoticed: after the drain (everything delivered, ticks) the client has still not run into it, is_connection_closed() = {:?} (choices {:?})", fault.name(), t.closed_flag, choices),
@@ -546,6 +546,7 @@ pub fn oracle_c08(scn: &Scenario, t: &Trace, st: &mut ExploreStats) -> Vec<Viola
         Ev::Close(_) => "close",
         Ev::CloseRst(_) => "close_reset",
         Ev::ReadErr => "read_error",
+        Ev::ReadErrAfter(_) => "read_error_behind_data_in_flight",
         Ev::WriteErr => "write_error",
         Ev::Garbage => "garbage",
         Ev::GarbageOpen => "garbage_without_line_end",
@@ -564,6 +565,35 @@ pub fn oracle_c08(scn: &Scenario, t: &Trace, st: &mut ExploreStats) -> Vec<Viola
             None => out.push(Violation::new("C08/later-request-hangs", format!("a request issued after the connection ended ({}) never resolved (choices {:?})", fault.name(), choices), Value::Null)),
             Some(o) if o.is_ok() => out.push(Violation::new("C08/later-request-ok", format!("a request issued after the connection ended resolved with {}", o.short()), Value::Null)),
             _ => {}
+        }
+    }
+    // "... resolves with its reply if that was completely received": a request whose reply the client has read
+    // to its last byte gets that reply, whatever ended the connection afterwards (round 6: a read-ahead that
+    // lets an error behind the reply pre-empt it). Judged for requests whose line(s) identify exactly one
+    // transcript record.
+    for (ci, ops) in t.ops.iter().enumerate() {
+        for (oi, rec) in ops.iter().enumerate() {
+            let lines = op_lines(&rec.op);
+            if rec.issued_step.is_none() || rec.cancelled || lines.is_empty() || !matches!(rec.op, Op::Raw(_) | Op::RawList(_)) {
+                continue;
+            }
+            let recs = find_record(t, &lines);
+            if recs.len() != 1 {
+                continue;
+            }
+            let r = recs[0].1;
+            if r.reply_end > r.reply_start && r.reply_end <= t.read_pos && r.reply_end <= t.s2c.len() {
+                st.count("replies_read_completely_before_the_end");
+                if let Some(o) = &rec.outcome {
+                    if matches!(o.err(), Some(AErr::Closed) | Some(AErr::Protocol(_))) {
+                        out.push(Violation::new(
+                            "C08/complete-reply-not-delivered",
+                            format!("caller {ci} op {oi} {:?}: the client had read the complete reply (bytes {}..{} of {} read) before {} ended the connection, but the caller got {} (choices {:?})", rec.op, r.reply_start, r.reply_end, t.read_pos, fault.name(), o.short(), choices),
+                            Value::Null,
+                        ));
+                    }
+                }
+            }
         }
     }
     // Ok only for completely delivered, matching replies
@@ -592,7 +622,7 @@ pub fn oracle_c08(scn: &Scenario, t: &Trace, st: &mut ExploreStats) -> Vec<Viola
         Ev::Close(_) => ref_decode(&t.s2c[scn.greeting.len().min(t.s2c.len())..]).end != RefEnd::Clean,
         // a reset is unclean if the cut is inside a response or the client ran into a failing write
         Ev::CloseRst(_) => ref_decode(&t.s2c[scn.greeting.len().min(t.s2c.len())..]).end != RefEnd::Clean || t.saw_write_err,
-        Ev::ReadErr => t.saw_read_err,
+        Ev::ReadErr | Ev::ReadErrAfter(_) => t.saw_read_err,
         Ev::WriteErr => t.saw_write_err,
         Ev::Garbage | Ev::GarbageOpen => garbage_read,
         _ => false,
@@ -736,7 +766,7 @@ pub fn s4(tier: Tier) -> Scenario {
     s.notify_budget = 1;
     s.split_budget = 1;
     s.split_menu = tier.pick(SplitMenu::Lines, SplitMenu::Bytes);
-    s.faults = vec![FaultKind::Close, FaultKind::CloseRst, FaultKind::ReadErr, FaultKind::WriteErr, FaultKind::Garbage, FaultKind::GarbageOpen, FaultKind::DropHandles];
+    s.faults = vec![FaultKind::Close, FaultKind::CloseRst, FaultKind::ReadErr, FaultKind::ReadErrAfter, FaultKind::WriteErr, FaultKind::Garbage, FaultKind::GarbageOpen, FaultKind::DropHandles];
     s.fault_budget = 1;
     s.late_probe = true;
     s
@@ -748,7 +778,7 @@ pub fn micro_fault(tier: Tier) -> Scenario {
     s.notify_budget = 1;
     s.split_budget = 1;
     s.split_menu = tier.pick(SplitMenu::Lines, SplitMenu::Bytes);
-    s.faults = vec![FaultKind::Close, FaultKind::CloseRst, FaultKind::ReadErr, FaultKind::WriteErr, FaultKind::Garbage, FaultKind::GarbageOpen, FaultKind::DropHandles];
+    s.faults = vec![FaultKind::Close, FaultKind::CloseRst, FaultKind::ReadErr, FaultKind::ReadErrAfter, FaultKind::WriteErr, FaultKind::Garbage, FaultKind::GarbageOpen, FaultKind::DropHandles];
     s.fault_budget = 1;
     s.late_probe = true;
     s
@@ -759,7 +789,7 @@ pub fn s4c(_tier: Tier) -> Scenario {
     let mut s = Scenario::new("S4c-faults-and-cancellation", vec![caller(vec![Op::Raw("cmd A1".into())]), CallerProg { ops: vec![Op::Raw("cmd B1".into()), Op::Raw("cmd B2".into())], pipeline: true }]);
     s.cancel_budget = 1;
     s.split_budget = 1;
-    s.faults = vec![FaultKind::Close, FaultKind::ReadErr, FaultKind::Garbage];
+    s.faults = vec![FaultKind::Close, FaultKind::ReadErr, FaultKind::ReadErrAfter, FaultKind::Garbage];
     s.fault_budget = 1;
     s.late_probe = true;
     s
